@@ -270,6 +270,12 @@ func (cc *checkCtx) discharge(quiet bool) {
 			results[i] = r
 			reports[i] = OblReport{Name: o.Name, Kind: o.Kind, Func: o.Func, Pos: o.Pos, Note: o.Note, Answer: r.Answer.String(), Backend: r.Backend,
 				Seconds: r.Seconds, Expected: o.Expect.String(), OK: r.Answer == o.Expect, Theory: o.vc.Mode, Bytes: len(q)}
+			if o.Expect == Sat {
+				// vacuity guard: the preconditions must not be refutable. With quantified assumptions the solvers often
+				// cannot exhibit a model (unknown); only a proof of inconsistency (unsat) fails the guard.
+				reports[i].OK = r.Answer != Unsat
+				reports[i].Expected = "not unsat"
+			}
 		}(i, o)
 	}
 	wg.Wait()
